@@ -499,9 +499,9 @@ def equivalent(t1, t2):
     return True
 
 
-def tree_cases(full_depth, core_sets, spines):
+def tree_cases(full_depth, core_sets, spines, adjacency=()):
     """-> [(tree, style)] with pairwise distinct rendered text, simplest first.
-    full alphabet to depth full_depth, (n_atoms, depth) extensions over the first n atoms in all styles,
+    full alphabet to depth full_depth in all styles, (n_atoms, depth, styles) extensions over the first n atoms,
     (n_atoms, depth, styles) one-deep-branch extensions"""
     seen = set()
     tl = []
@@ -513,10 +513,14 @@ def tree_cases(full_depth, core_sets, spines):
                 seen.add(k)
                 tl.append((tr, styles))
     add(trees(range(len(TREE_ATOMS)), full_depth), tuple(STYLES))
-    for n, depth in core_sets:
-        add(trees(range(n), depth), tuple(STYLES))
+    for n, depth, styles in core_sets:
+        add(trees(range(n), depth), tuple(styles))
     for n, depth, styles in spines:
         add(spine(range(n), depth), tuple(styles))
+    if adjacency:
+        # every kind of atom next to an opening and a closing parenthesis: !(A | B) for all pairs of atoms
+        ids = range(len(TREE_ATOMS))
+        add([["!", ["|", a, b]] for a in ids for b in ids], tuple(adjacency))
     by_text = {}
     out = []
     for tr, styles in tl:
@@ -543,14 +547,18 @@ def paren_depth(text):
 
 
 def run(ctx):
-    core = ctx.pick([(3, 3)], [(4, 3)])
+    # bounds follow the measured cost of a parse: ~0.6 ms without parentheses, ~10 ms (unloaded; 20x that on a busy
+    # machine) with one level of parentheses, ~50 ms with two
+    core = ctx.pick([(2, 3, ("min", "tight", "full"))], [(4, 3, tuple(STYLES))])
     spines = ctx.pick([], [(2, 4, ("min",))])
+    adjacency = ctx.pick(("tight",), tuple(STYLES))
     ctx.bounds = {
         "atoms_sweep": "%d unary operators, %d regex operators x %d regexes x allowed quoting forms, ~c x %d codes" % (
             len(UNARY), len(REXOPS), len(REGEXES), len(CODES)),
         "tree_operators": ["!", "&", "|", "juxtaposition", "( )"],
         "trees_full_alphabet": "all trees of depth <= 2 over %d atoms %r" % (len(TREE_ATOMS), [a[2] for a in TREE_ATOMS]),
-        "trees_core": ["all trees of depth <= %d over the first %d atoms" % (d, n) for n, d in core],
+        "trees_core": ["all trees of depth <= %d over the first %d atoms, renderings %s" % (d, n, list(st)) for n, d, st in core],
+        "trees_paren_adjacency": "!(A | B) for all %d x %d atom pairs, renderings %s" % (len(TREE_ATOMS), len(TREE_ATOMS), list(adjacency)),
         "trees_one_deep_branch": ["depth %d over the first %d atoms (!T, T op atom, atom op T), renderings %s" % (d, n, list(st))
                                   for n, d, st in spines],
         "renderings": STYLES,
@@ -558,7 +566,7 @@ def run(ctx):
     }
     cases = [("atom", a) for a in atom_cases()]
     n_atoms = len(cases)
-    tcases, ntrees = tree_cases(2, core, spines)
+    tcases, ntrees = tree_cases(2, core, spines, adjacency)
     cases += [("tree", c) for c in tcases]
     ctx.log("cases: %d atoms, %d trees -> %d distinct rendered expressions" % (n_atoms, ntrees, len(tcases)))
     ctx.info["atom_cases"] = n_atoms
